@@ -1,0 +1,12 @@
+//go:build verif
+
+package discov
+
+import "github.com/gotid/god/lib/discov/internal"
+
+// VerifSetClient makes subscribers of the given endpoints talk to cli instead of dialing etcd.
+// lib/discov/internal cannot be imported from outside lib/discov; drivers of packages built on
+// Subscriber (rpc/resolver/internal) pass their scripted client through here.
+func VerifSetClient(endpoints []string, cli internal.EtcdClient) {
+	internal.VerifSetClient(endpoints, cli)
+}
